@@ -372,7 +372,9 @@ def register():
     RUNNERS["C06"] = encoding_runner("C06", optional.fam_C06, {S, Cm, "buffers", "indicators"}, mixed=("optional",),
                                      large=frozenset({S, Cm}))
     RUNNERS["C08"] = encoding_runner("C08", indicators.fam_C08, {S, "indicators"}, mixed=("indicator",), large=frozenset({S}))
-    RUNNERS["C09"] = encoding_runner("C09", buffers.fam_C09, {S, "buffers"}, audits=[("MC_Timeline_free.cfg", 40)], mixed=("buffer",),
+    # "complete": the property also says what MAY happen (simultaneous accesses to a concurrent buffer, the net level of
+    # an instant judged against the bounds), so a valid buffer schedule that is refused is a C09 violation too
+    RUNNERS["C09"] = encoding_runner("C09", buffers.fam_C09, {S, Cm, "buffers"}, audits=[("MC_Timeline_free.cfg", 40)], mixed=("buffer",),
                                      large=frozenset({S}))
     RUNNERS["C10"] = encoding_runner("C10", logic.fam_C10, {S, Cm}, mixed=("logic",), large=frozenset({S, Cm}))
     RUNNERS["C05"] = encoding_runner(
